@@ -438,3 +438,15 @@ Proof.
     unfold doomP. rewrite Dl. cbn [andb]. apply andb_false_r.
   - pose proof (prune_keeps_winner maxd t W M) as K. cbn zeta in K. fold t' in K. tauto.
 Qed.
+
+(* prune_preserves_winner, in terms of what winningRevision returns: same winner, same inConflict; and
+   [branched] can only go from true to false *)
+Theorem prune_preserves_winner : forall maxd t, wf t -> 1 <= maxd ->
+  let t' := fst (prune maxd t) in
+  fst (fst (winning t')) = fst (fst (winning t)) /\ snd (winning t') = snd (winning t) /\
+  (snd (fst (winning t')) = true -> snd (fst (winning t)) = true).
+Proof.
+  intros maxd t W M t'. pose proof (prune_keeps_winner maxd t W M) as K. cbn zeta in K. fold t' in K.
+  destruct K as (A & _ & C & D). unfold winning. cbn [fst snd]. rewrite A, C. split; auto. split; auto.
+  intros H. apply N.ltb_lt in H. apply N.ltb_lt. lia.
+Qed.
